@@ -1,6 +1,8 @@
 import FractopoModel.Basic.Wire
 import FractopoModel.Basic.Clip
 import FractopoModel.Generated.BoundaryLines
+import FractopoModel.Generated.LineDataCache
+import FractopoModel.Generated.BoundaryWeight
 /-!
 # Runs the REGENERATED loops of `determine_boundary_intersecting_lines` with exact geometry (translator validation, stream
 S08-generated).  One circular / polygonal area per request; distances squared.
@@ -27,6 +29,43 @@ def blines (a : Args) : Option String := do
     (List.range n) (t * t)
   some s!"intersecting={",".intercalate (x.map showBool)} cuts={",".intercalate (y.map showBool)}"
 
+def parseInts? (s : String) : Option (List Int) := ((s.splitOn ",").filter (· ≠ "")).mapM parseInt?
+
+/-- `glinedata order=<getter,…> lengths= counts= azimuths= detset=<az:set;…> [pre_length= pre_azimuth= pre_set= pre_w= pre_nw=]`: the REGENERATED column cache
+of LineData; the getters are called in the given order on one frame, every result and the final columns are printed -/
+def glinedata (a : Args) : Option String := do
+  let lengths ← (a.get? "lengths") >>= parseRats?
+  let counts ← (a.get? "counts") >>= parseInts?
+  let azimuths ← (a.get? "azimuths") >>= parseRats?
+  let table : List (Rat × String) ← ((((a.get? "detset").getD "").splitOn ";").filter (· ≠ "")).mapM fun t => match t.splitOn ":" with
+    | [x, n] => do some (← parseRat? x, n)
+    | _ => none
+  let detset : Rat → String := fun x => match table.find? (·.1 == x) with | some p => p.2 | none => "?"
+  let optR : String → Option (Option (List Rat)) := fun k => match a.get? k with | none => some none | some v => (parseRats? v).map some
+  let cols0 : LineCols := {
+    length := ← optR "pre_length", azimuth := ← optR "pre_azimuth", length_nw := ← optR "pre_nw",
+    azimuth_set := (a.get? "pre_set").map fun v => (v.splitOn ",").filter (· ≠ ""),
+    boundary_weight := ← (match a.get? "pre_w" with | none => some none | some v => (parseInts? v).map some) }
+  let order := (((a.get? "order").getD "").splitOn ",").filter (· ≠ "")
+  let showI : List Int → String := fun l => ",".intercalate (l.map toString)
+  let step : (LineCols × List String) → String → (LineCols × List String) := fun (cols, out) g =>
+    match g with
+    | "az" => let (v, c) := Gen.ld_azimuth_array azimuths cols; (c, out ++ [s!"az:{showRats v}"])
+    | "set" => let (v, c) := Gen.ld_azimuth_set_array detset azimuths cols; (c, out ++ [s!"set:{",".intercalate v}"])
+    | "nw" => let (v, c) := Gen.ld_length_array_non_weighted lengths cols; (c, out ++ [s!"nw:{showRats v}"])
+    | "w" => match Gen.ld_length_boundary_weights Gen.intersection_count_to_boundary_weight lengths.length counts cols with
+        | .ok (v, c) => (c, out ++ [s!"w:{showI v}"])
+        | .error e => (cols, out ++ [s!"w:err:{e}"])
+    | "len" => match Gen.ld_length_array Gen.intersection_count_to_boundary_weight lengths counts cols with
+        | (.ok v, c) => (c, out ++ [s!"len:{showRats v}"])
+        | (.error e, c) => (c, out ++ [s!"len:err:{e}"])
+    | _ => (cols, out ++ ["?"])
+  let (cols, out) := order.foldl step (cols0, [])
+  let present : List String := (if cols.length.isSome then ["length"] else []) ++ (if cols.azimuth.isSome then ["azimuth"] else []) ++
+    (if cols.azimuth_set.isSome then ["azimuth_set"] else []) ++ (if cols.boundary_weight.isSome then ["boundary_weight"] else []) ++
+    (if cols.length_nw.isSome then ["length_non-weighted"] else [])
+  some s!"out={"|".intercalate out} cols={",".intercalate present}"
+
 def dispatch (line : String) : String :=
   let toks := (line.trimAscii.toString.splitOn " ").filter (· ≠ "")
   match toks with
@@ -36,6 +75,7 @@ def dispatch (line : String) : String :=
     let r : Option String :=
       match cmd with
       | "blines" => blines a
+      | "glinedata" => glinedata a
       | _ => some s!"error=unknown-command:{cmd}"
     r.getD "error=bad-arguments"
 
